@@ -1275,3 +1275,56 @@ Qed.
 Lemma expand_program_sm_WF defs sel l out m :
   expand_program_sm defs sel l = Ok (out, m) -> WFmap defs sel [] l 0 0 m out.
 Proof. apply expand_sm_WF. Qed.
+
+(** * Further consequences: nothing selected is left, determinism of the specifications *)
+
+Lemma SeqExpands_untouched defs sel st l out :
+  SeqExpands defs sel st l out -> Forall (Untouched defs sel) out.
+Proof.
+  induction 1; auto.
+  apply Forall_app. auto.
+Qed.
+
+Lemma expand_idempotent defs sel l out :
+  expand_program defs sel l = Ok out -> expand_program defs sel out = Ok out.
+Proof.
+  intros H. apply expand_untouched. apply expand_program_iff in H.
+  eapply SeqExpands_untouched; eauto.
+Qed.
+
+Lemma Instantiates_fun g d formals body b1 b2 :
+  Instantiates g d formals body b1 -> Instantiates g d formals body b2 -> b1 = b2.
+Proof.
+  intros [P1 [_ [Q1 [F1 S1]]]] [_ [_ [_ [_ S2]]]].
+  assert (E1 : seq_expand formals body (combine (dparams d) (gparams g)) (gqubits g) = Ok b1)
+    by (apply seq_expand_ok; auto).
+  assert (E2 : seq_expand formals body (combine (dparams d) (gparams g)) (gqubits g) = Ok b2)
+    by (apply seq_expand_ok; auto).
+  congruence.
+Qed.
+
+Lemma Untouched_not_invocation defs sel g d formals body :
+  Untouched defs sel (IGate g) -> Invocation defs sel g d formals body -> False.
+Proof. intros H. apply H. Qed.
+
+Lemma WFmap_fun defs sel st l k b es out :
+  WFmap defs sel st l k b es out ->
+  forall es' out', WFmap defs sel st l k b es' out' -> es = es' /\ out = out'.
+Proof.
+  induction 1 as [st k b | st i t k b es out Hu _ IH
+                 | st g d formals body body' t k b nested es out1 out2 Hinv Hins Hn _ IH1 _ IH2];
+    intros es' out' H'.
+  - inversion H'; subst. auto.
+  - inversion H' as [| ? ? ? ? ? es2 out2 Hu2 H2 | ? g2 d2 f2 bd2 bd2' ? ? ? nst2 es2 o1 o2 Hinv2];
+      subst.
+    + destruct (IH _ _ H2) as [-> ->]. auto.
+    + exfalso. eapply Untouched_not_invocation; eauto.
+  - inversion H' as [| ? ? ? ? ? es2 o2 Hu2 H2
+                     | ? g2 d2 f2 bd2 bd2' ? ? ? nst2 es2 o1 o2 Hinv2 Hins2 Hn2 Hnested2 Hrest2];
+      subst.
+    + exfalso. eapply Untouched_not_invocation; eauto.
+    + destruct (Invocation_fun _ _ _ _ _ _ _ _ _ Hinv Hinv2) as [<- [<- <-]].
+      pose proof (Instantiates_fun _ _ _ _ _ _ Hins Hins2) as <-.
+      destruct (IH1 _ _ Hnested2) as [<- <-].
+      destruct (IH2 _ _ Hrest2) as [<- <-]. auto.
+Qed.
